@@ -84,11 +84,12 @@ Section Scores.
 
   (* log-likelihood part of BIC/AIC: (log(counts) - log(colsum)) * counts, logs taken where > 0 *)
   Definition ll_gen (C : list (list nat)) (S : list nat) (x : nat) (ps : list nat) : list (Qc * atom) :=
-    fsumof C (fun j => fsumof S (fun k =>
-      let n := N x ps j k in
+    fsumof C (fun j =>
       let nj := colsum S x ps j in
-      (if (0 <? n)%nat then fatom (Qn n) LN (Qn n) else [])
-      ++ fneg (if (0 <? nj)%nat then fatom (Qn n) LN (Qn nj) else []))).
+      fsumof S (fun k =>
+        let n := N x ps j k in
+        (if (0 <? n)%nat then fatom (Qn n) LN (Qn n) else [])
+        ++ fneg (if (0 <? nj)%nat then fatom (Qn n) LN (Qn nj) else []))).
   Definition bic_gen C S x ps :=
     let r := Qn (card x) in let q := Qn (qtot ps) in
     ll_gen C S x ps ++ fneg (fatom (Q2Qc (1 # 2) * q * (r - 1)) LN (Qn (length d))).
